@@ -27,7 +27,18 @@ Fixpoint find_pv (w : world) (name version : str) : option product :=
   end.
 
 Record config := { c_flavor : str; c_root : str; c_max_depth : option nat;   (* None: max_depth = -1 *)
-                   c_keep : bool }.                                          (* --keep *)
+                   c_keep : bool;                                            (* --keep *)
+                   c_flavors : list (str * str * str) }.   (* (name, version, flavor) of the products declared under
+                                                              another flavor than c_flavor (the fall-back flavor generic) *)
+
+(* the flavor a declared version was found under: what Eups.setup writes behind -f *)
+Fixpoint flavor_in (l : list (str * str * str)) (name version : str) : option str :=
+  match l with
+  | [] => None
+  | (n, v, f) :: l' => if str_eqb n name && str_eqb v version then Some f else flavor_in l' name version
+  end.
+Definition flavor_of (cfg : config) (name version : str) : str :=
+  match flavor_in (c_flavors cfg) name version with Some f => f | None => c_flavor cfg end.
 
 Record state := { s_env : amap str; s_aliases : amap str }.
 
@@ -50,7 +61,7 @@ Fixpoint encode_path (x : str) : str :=
 
 (* "name version -f flavor -Z root" *)
 Definition setup_string (cfg : config) (name version : str) : str :=
-  name ++ [c_space] ++ version ++ lit " -f " ++ c_flavor cfg ++ lit " -Z " ++ encode_path (c_root cfg).
+  name ++ [c_space] ++ version ++ lit " -f " ++ flavor_of cfg name version ++ lit " -Z " ++ encode_path (c_root cfg).
 
 (* findSetupVersion: the version recorded in a SETUP_ value (python str.split(), second word
    unless it is -f; "setup" when absent) *)
